@@ -421,10 +421,19 @@ func ParentMain(id, tier string, seed int64, self string, instrInfo string) int 
 				}
 				if err != nil {
 					cmd.Process.Kill()
-					msg := fmt.Sprintf("worker died on unit %q: %v; stderr: %s", units[idx].Name, err, trunc(stderr.String(), 3000))
+					se := stderr.String()
 					kill()
 					mu.Lock()
-					harnessErrs = append(harnessErrs, msg)
+					if kind := crashKind(se); kind != "" {
+						// the code under test took the whole process down (unrecoverable runtime error): that is a finding, not a harness problem
+						results[idx] = &UnitResult{Unit: units[idx].Name, Index: idx, Complete: false, Violations: []Violation{{
+							Sig:    "process-crash kind=" + kind + " unit=" + units[idx].Name,
+							Detail: "the worker process running this unit was killed by an unrecoverable Go runtime error raised in the code under test:\n" + trunc(se, 2500),
+							Replay: map[string]any{"unit": units[idx].Name, "tier": tier, "seed": seed},
+						}}}
+					} else {
+						harnessErrs = append(harnessErrs, fmt.Sprintf("worker died on unit %q: %v; stderr: %s", units[idx].Name, err, trunc(se, 3000)))
+					}
 					mu.Unlock()
 					continue
 				}
@@ -615,6 +624,21 @@ func DebugUnit(id, sub, tier string, seed int64) {
 	fmt.Println("no such unit")
 }
 
+// crashKind classifies an unrecoverable runtime error from a dead worker's stderr ("" = unknown cause).
+func crashKind(stderr string) string {
+	switch {
+	case strings.Contains(stderr, "stack overflow") || strings.Contains(stderr, "goroutine stack exceeds"):
+		return "stack-overflow"
+	case strings.Contains(stderr, "concurrent map"):
+		return "concurrent-map-access"
+	case strings.Contains(stderr, "all goroutines are asleep"):
+		return "deadlock"
+	case strings.Contains(stderr, "fatal error: out of memory") || strings.Contains(stderr, "cannot allocate memory"):
+		return "out-of-memory"
+	}
+	return ""
+}
+
 // UnitJSONMain runs one unit by index and prints its result as JSON (used to confirm violations).
 func UnitJSONMain(id, tier string, seed int64, idx int, deadlineUnix int64) {
 	ck := Lookup(id)
@@ -644,8 +668,16 @@ func confirmViolation(self, id, tier string, seed int64, units []Unit, v Violati
 		wd, _ := os.MkdirTemp("", "vconfirm-")
 		cmd := exec.Command(self, "unit-json", id, "--tier", tier, "--seed", strconv.FormatInt(seed, 10), "--index", strconv.Itoa(idx), "--deadline", strconv.FormatInt(time.Now().Add(15*time.Minute).Unix(), 10))
 		cmd.Dir = wd
+		var se strings.Builder
+		cmd.Stderr = &se
 		out, err := cmd.Output()
 		os.RemoveAll(wd)
+		if strings.HasPrefix(v.Sig, "process-crash kind=") {
+			if k := crashKind(se.String()); k != "" && strings.HasPrefix(v.Sig, "process-crash kind="+k+" ") {
+				continue // crashed again the same way: reproduced
+			}
+			return false, fmt.Sprintf("confirmation run %d did not crash the same way", k+1)
+		}
 		var res UnitResult
 		lines := strings.Split(strings.TrimSpace(string(out)), "\n")
 		if err2 := json.Unmarshal([]byte(lines[len(lines)-1]), &res); err2 != nil {
